@@ -47,6 +47,10 @@ def generate(tier, seed):
             for r in sp["reactions"]:
                 if r.get("delay") and rnd.random() < 0.7:
                     r["delay"]["reactants"] = ["Fuel"] * rnd.choice([1, 1, 2])
+        if i % 3 == 1:
+            # the model is assembled incrementally and one create_reaction call with a delay is refused on the way
+            # (a delay parameter named like a species / a delay dictionary without its key / an unknown delay type)
+            sp["poison"] = [[rnd.randint(0, len(sp["reactions"]) - 1), rnd.choice(["delay_param_species_name", "new_species_bad_delay", "unknown_delay_type", "hill_delay"])]]
         cases.append({"kind": "exact", "spec": sp, "grid": {"t0": 0.0, "dt": dt, "n": n}, "slot": rnd.choice(["equal", "equal", "finer", "coarser"]),
                       "seeds": [util.seed64(PROPERTY, tier, seed, "e%d_%d" % (i, j)) % (2 ** 31) for j in range(nseeds)], "V": gen.nice(rnd, 0.4, 3)})
     # fixed-delay timing windows
@@ -161,10 +165,15 @@ def run_exact(case):
     C = Counter()
     viol = util.ViolList()
     sp = case["spec"]
-    M = specmod.build_model(sp, "ctor")
+    M = specmod.build_model(sp, "incremental" if sp.get("poison") else "ctor")
+    if sp.get("poison"):
+        C["models_built_after_refused_calls"] += 1
     species = M.get_species_list()
     idx = M.get_species2index()
     nrx = len(sp["reactions"])
+    if len(M.get_reactions()) != nrx:
+        return {"viol": [{"key": "C10/reaction-list:delay-ssa", "msg": "the model holds %d reactions after %d were added (a refused call was made on the way)" % (len(M.get_reactions()), nrx)}],
+                "counters": dict(C), "nontrivial": True}
     S, Sd = ref.stoich(sp)
     Smat = np.array([[S[r].get(s, 0) for r in range(nrx)] for s in species], dtype=float)
     Sdmat = np.array([[Sd[r].get(s, 0) for r in range(nrx)] for s in species], dtype=float)
